@@ -270,6 +270,9 @@ fn run_case(c: &Case, id: u64, seed: u64, out: &mut Out) {
                     ev["out"] = json!({"title":field(&s.title),"author":field(&s.author),"group":field(&s.group),
                         "comments":s.comments.iter().map(field).collect::<Vec<_>>(),"ice":s.use_ice as u8,"ls":s.use_letter_spacing as u8,"ar":s.use_aspect_ratio as u8,
                         "has_font":font.is_some() as u8,"font":font.unwrap_or_default(),"width":s.buffer_size.width,"height":s.buffer_size.height,"hdr":s.sauce_header_len});
+                    // the font the loader actually installed (by checksum), and the font the recorded SAUCE font name stands for
+                    ev["font0"] = json!(b.get_font(0).map(|f| f.get_checksum()).unwrap_or(0));
+                    ev["font_named"] = json!(s.font_opt.as_ref().and_then(|n| icy_engine::BitFont::from_sauce_name(n).ok()).map(|f| f.get_checksum()).unwrap_or(0));
                 }
                 None => {
                     ev["has_sauce"] = json!(0);
@@ -377,10 +380,10 @@ fn random_case(id: u64, seed: u64) -> Case {
     };
     let tails = ["plain", "plain", "sauce", "comnt", "eof"];
     let tail = tails[r.gen_range(0..5)];
-    let names = ["IBM VGA50", "IBM EGA", "Amiga Topaz 1", "IBM VGA 855"];
+    let names = icy_engine::SAUCE_FONT_NAMES;
     let font = match r.gen_range(0..4) {
-        0 | 1 => None,
-        2 => Some(names[r.gen_range(0..names.len())].as_bytes().to_vec()),
+        0 => None,
+        1 | 2 => Some(names[r.gen_range(0..names.len())].as_bytes().to_vec()),
         _ => {
             let l = r.gen_range(0..=22);
             Some(text(&mut r, l, 22, "none", true))
